@@ -458,7 +458,8 @@ theorem parseColumns_written (E : FloatExt) (hE : FloatSpec E) (m : Str) (hm : s
 /-! ### the composed round trip -/
 
 /-- conditions on the header scalars. Beyond the stated domain of the property the proof forces:
-the delimiter is not a blank / quote / line break and is YAML-printable; the missing marker is its
+the delimiter is not a quote / line break and is YAML-printable (a blank delimiter additionally needs
+non-empty written fields, see `read_save`); the missing marker is its
 own `strip()` and YAML-safe; the names are acceptable to `collections.namedtuple`; units and fills
 are YAML-safe. Each has been replayed on the real code (see `known_findings/C16.json`). -/
 structure HeaderOK (E : FloatExt) (dc : Char) (m : Str) (fs : List Field) : Prop where
@@ -571,7 +572,9 @@ theorem read_save (E : FloatExt) (hE : FloatSpec E) (dc : Char) (m : Str) (fs : 
       obtain ⟨fld, hfld, rfl⟩ := hf
       obtain ⟨⟨n', hn', hid⟩, _⟩ := hfv fld hfld
       rw [hn']
-      intro e; simp [e, isIdentifier] at hid
+      intro e
+      have e' : n' = [] := by simpa using e
+      subst e'; simp [isIdentifier] at hid
     · -- a written cell: the missing marker or the text of a cell of the data
       have hmem : ∀ w ∈ List.zipWith (written E m) fs row, w ≠ [] := by
         intro w hw
